@@ -227,15 +227,12 @@ def assignMpz (t : IntTy) (π : Policy) (to0 v : Int) (dir : Dir) : Int × Resul
 
 /-- `assign_int_mpq` (canonical rational `n / d`, `d > 0`) -/
 def assignMpq (t : IntTy) (π : Policy) (to0 n d : Int) (dir : Dir) : Int × Result :=
-  let q := n.tdiv d
-  let (to, r) := assignMpz t π to0 q dir
-  if r != V_EQ then (to, r)
-  else if dir.notRequested then (to, V_LGE)
-  else
-    let rem := n.tmod d
-    if rem < 0 then roundLt t π to dir
-    else if rem > 0 then roundGt t π to dir
-    else (to, V_EQ)
+  let zr := assignMpz t π to0 (n.tdiv d) dir
+  if zr.2 != V_EQ then zr
+  else if dir.notRequested then (zr.1, V_LGE)
+  else if n.tmod d < 0 then roundLt t π zr.1 dir
+  else if n.tmod d > 0 then roundGt t π zr.1 dir
+  else (zr.1, V_EQ)
 
 /-- an integer rounded up (toward +∞) to `p` significant bits: its image under conversion to a binary
 floating-point format with a `p`-bit significand in the upward rounding mode -/
